@@ -103,6 +103,11 @@ func (iter *FastIterator) Next() {
 
 	if iter.fastIterator == nil {
 		iter.fastIterator, iter.err = iter.ndb.getFastIterator(iter.start, iter.end, iter.ascending)
+		if iter.fastIterator == nil {
+			// the store could not create the iterator: invalid, with the error reported by Error()
+			iter.valid = false
+			return
+		}
 		iter.valid = true
 	} else {
 		iter.fastIterator.Next()
